@@ -64,7 +64,11 @@ func TestReproFindings(t *testing.T) {
 		q := schema.Query()
 		q.FieldFunc("obj", func() ReproObj { return ReproObj{Color: 3} })
 		q.FieldFunc("u", func() UnionAB { return UnionAB{PoolA: &PoolA{Name: "a", E: 1}} })
-		s := schema.MustBuild()
+		s, err := schema.Build()
+		if err != nil {
+			t.Logf("builder refuses the schema (renamed=%v): %v", renamed, err)
+			return nil
+		}
 		introspection.AddIntrospectionToSchema(s)
 		return s
 	}
@@ -78,5 +82,7 @@ func TestReproFindings(t *testing.T) {
 	reproRun(t, s, `{ obj { btm } }`)
 	reproRun(t, s, `{ u { ... on PoolB { title } } }`)
 	reproRun(t, s, `{ a: u { __typename ...F } b: u { ...F } } fragment F on PoolA { name }`)
-	reproRun(t, build(true), `{ u { __typename } }`)
+	if rs := build(true); rs != nil {
+		reproRun(t, rs, `{ u { __typename } }`)
+	}
 }
